@@ -1,11 +1,20 @@
 import TracklibVerif.Model.ObsTime
+import TracklibVerif.Model.ObsTimeG
 import TracklibVerif.Drv.Util
 /-! Driver handler for C03 (ObsTime). Commands:
   read <ms>                          → y m d H M S ms
   abs <y> <m> <d> <H> <M> <S> <ms>   → milliseconds since epoch
   cmp <7 fields a> <7 fields b>      → lt gt eq le ge ne  (0/1 each)
   add <7 fields> <nbsec>             → y m d H M S ms
-  civil <y> <m> <d>                  → day number (spec) -/
+  civil <y> <m> <d>                  → day number (spec)
+ float path (`readUnixG`, `toAbsG`, … instantiated at IEEE doubles; floats cross as bit patterns, fields are integers):
+  readf <x>                          → y m d H M S ms <bits of its toAbsTime()> | err:nonterm   (readUnixTime(x))
+  absf <7 fields>                    → bits of toAbsTime()
+  rtf <7 fields>                     → bits of toAbsTime(), then the reply of readf on it
+  addf <7 fields> <sec|min|hour|day> <nb>  → addSec/addMin/addHour/addDay(nb), nb a double; reply as readf
+  cmpf <x> <y>                       → lt gt eq le ge ne of readUnixTime(x), readUnixTime(y), then bits of their `-`
+  subf <7 fields a> <7 fields b>     → bits of a - b
+  default                            → fields of ObsTime() -/
 namespace TV.Drv.C03
 open TV.ObsTime TV.Drv
 
@@ -16,7 +25,84 @@ def stamp? : List Nat → Option (Stamp × List Nat)
   | y :: m :: d :: h :: mi :: s :: ms :: rest => some (⟨⟨y, m, d, h, mi, s⟩, ms⟩, rest)
   | _ => none
 
+local instance : IntCast Float := ⟨Float.ofInt⟩
+
+/-- Python's `int(x)` on a double in the range used (|x| < 2^63): truncation toward zero -/
+def floatTrunc (f : Float) : Int := f.toInt64.toInt
+
+def showStampZ (t : StampZ) : String :=
+  s!"{t.year} {t.month} {t.day} {t.hour} {t.min} {t.sec} {t.ms}"
+
+/-- the fields of a result and the bit pattern of its `toAbsTime()` -/
+def showOptZ : Option StampZ → String
+  | none => "err:nonterm"
+  | some t => showStampZ t ++ " " ++ showFloat (toAbsG t : Float)
+
+/-- `toAbsTime` indexes `__day_per_month[m - 1]` for `m < month`: an IndexError from month 14 on -/
+def absErr (ts : List StampZ) (k : String) : String := if ts.any (·.month > 13) then "err:index" else k
+
+def stampZ? (l : List String) : Option (StampZ × List String) :=
+  match l with
+  | y :: m :: d :: h :: mi :: s :: ms :: rest =>
+    match y.toNat?, m.toNat?, [d, h, mi, s, ms].mapM String.toInt? with
+    | some y, some m, some [d, h, mi, s, ms] => some (⟨y, m, d, h, mi, s, ms⟩, rest)
+    | _, _, _ => none
+  | _ => none
+
+/-- `readUnixTime` on a double. On NaN and on the infinities the Python year loop never ends
+(`elapsed_seconds - sec < sec_on_year` stays false): the driver does not start it. -/
+def readF (x : Float) : Option StampZ :=
+  if x.isNaN || x.isInf then none else readUnixG floatTrunc x
+
+def cmpZ (a b : StampZ) : String :=
+  " ".intercalate ([ltZ a b, gtZ a b, eqZ a b, leZ a b, geZ a b, neZ a b].map showBool)
+
+def handleF (cmd : String) (args : List String) : Option String :=
+  match cmd, args with
+  | "readf", [x] => (float? x).map fun x => showOptZ (readF x)
+  | "absf", _ =>
+    match stampZ? args with
+    | some (t, []) => some (absErr [t] (showFloat (toAbsG t : Float)))
+    | _ => none
+  | "rtf", _ =>
+    match stampZ? args with
+    | some (t, []) => let a : Float := toAbsG t; some (absErr [t] (showFloat a ++ " " ++ showOptZ (readF a)))
+    | _ => none
+  | "addf", _ =>
+    match stampZ? args with
+    | some (t, [unit, nb]) =>
+      match float? nb with
+      | none => none
+      | some nb =>
+        let a : Float := toAbsG t
+        match unit with
+        | "sec" => some (absErr [t] (showOptZ (readF (a + nb))))
+        | "min" => some (absErr [t] (showOptZ (readF (a + nb * ((60 : Int) : Float)))))
+        | "hour" => some (absErr [t] (showOptZ (readF (a + nb * ((3600 : Int) : Float)))))
+        | "day" => some (absErr [t] (showOptZ (readF (a + nb * ((86400 : Int) : Float)))))
+        | _ => none
+    | _ => none
+  | "cmpf", [x, y] =>
+    match float? x, float? y with
+    | some x, some y =>
+      match readF x, readF y with
+      | some a, some b => some (cmpZ a b ++ " " ++ showFloat (subG a b : Float))
+      | _, _ => some "err:nonterm"
+    | _, _ => none
+  | "subf", _ =>
+    match stampZ? args with
+    | some (a, rest) =>
+      match stampZ? rest with
+      | some (b, []) => some (absErr [a, b] (showFloat (subG a b : Float)))
+      | _ => none
+    | none => none
+  | "default", [] => some (showStampZ defaultZ)
+  | _, _ => none
+
+def isF (cmd : String) : Bool := ["readf", "absf", "rtf", "addf", "cmpf", "subf", "default"].contains cmd
+
 def handle (cmd : String) (args : List String) : String :=
+  if isF cmd then (handleF cmd args).getD "bad-request" else
   match args.mapM String.toNat? with
   | none => "bad-request"
   | some ns =>
